@@ -44,4 +44,27 @@ theorem C16_lost_update_witness :
     p.finished = true ∧ (p.rc ≠ 262 ∨ p.blocks.length ≠ 2) :=
   pool_unguarded_lost_update
 
+theorem C16_fact_mergeErrChan : Facts.mergeErrChanHoldsAllDiffers = true := by decide
+
+theorem sendAll_room (cap : Nat) : ∀ (l : List Bool) (used : Nat), used + l.length ≤ cap → (sendAll cap l used).isSome = true
+  | [], _, _ => rfl
+  | true :: rest, used, h => by
+    have h1 : used < cap := by simp at h; omega
+    simp only [sendAll, if_true, h1]
+    exact sendAll_room cap rest (used + 1) (by simp at h ⊢; omega)
+  | false :: rest, used, h => by
+    simp only [sendAll, Bool.false_eq_true, if_false]
+    exact sendAll_room cap rest used (by simp at h ⊢; omega)
+
+/-- The error channels: with room for one error per goroutine (the extracted facts
+    `ingestErrChanHoldsAllWorkers`, `mergeErrChanHoldsAllDiffers`), no goroutine ever blocks on
+    reporting its error, whichever subset of them fails — so one unreadable object that makes
+    several differs fail at once cannot hang the merge. -/
+theorem C16_error_report_never_blocks (goroutines : List Bool) (cap : Nat) (h : goroutines.length ≤ cap) :
+    (sendAll cap goroutines 0).isSome = true :=
+  sendAll_room cap goroutines 0 (by omega)
+
+/-- … and with a smaller buffer two failing goroutines do hang. -/
+theorem C16_error_report_blocks_witness : sendAll 1 [true, true] 0 = none := by decide
+
 end Wrgl
